@@ -1025,7 +1025,9 @@ class EdgeQLSourceGenerator(codegen.SourceGenerator):
         if node.name is not None:
             self.write(ident_to_str(node.name), ': ')
         self.write('TYPEOF ')
-        self.visit(node.expr)
+        # The `>` closing a cast or a collection type must not be
+        # read as a comparison: <TYPEOF (NOT x)>y
+        self._visit_left_operand(node.expr, '>')
 
     # DDL nodes
 
